@@ -1,11 +1,13 @@
 mod api;
 mod builder_run;
+mod c08;
 mod conc;
 mod core_replay;
 mod edits;
 mod minted;
 mod parser_run;
 mod shapes;
+mod terms;
 
 use api::*;
 use core_replay::*;
@@ -521,6 +523,31 @@ fn replay_shapes_cmd(args: &[String]) -> i32 {
     if total.nviol > 0 { 1 } else { 0 }
 }
 
+/// pv eval-terms --terms F --vectors F --tier T --seed N --out summary.json
+fn eval_terms_cmd(args: &[String]) -> i32 {
+    install_panic_hook();
+    let terms_path = arg(args, "--terms").expect("--terms");
+    let vec_path = arg(args, "--vectors").expect("--vectors");
+    let tier = arg(args, "--tier").unwrap_or_else(|| "quick".into());
+    let seed: u64 = arg(args, "--seed").and_then(|s| s.parse().ok()).unwrap_or(1);
+    let out = arg(args, "--out").expect("--out");
+    let t0 = Instant::now();
+    let terms: Vec<Value> = serde_json::from_str(&std::fs::read_to_string(&terms_path).expect("terms")).expect("terms json");
+    let vectors: Vec<Value> = serde_json::from_str(&std::fs::read_to_string(&vec_path).expect("vectors")).expect("vectors json");
+    let pinned = match c08::pin(&terms, &vectors) {
+        Ok(n) => n,
+        Err(e) => {
+            eprintln!("PIN-FAILURE: the term evaluator does not reproduce the official vectors: {}", e);
+            return 3;
+        }
+    };
+    let r = c08::sweep(&terms, seed, tier == "thorough");
+    let s = json!({"prop": "C08", "pinned_vectors": pinned, "evaluations": r.evaluations, "distinct": r.distinct, "nviol": r.nviol,
+                   "violations": r.violations, "samples": r.samples, "wall_s": t0.elapsed().as_secs_f64()});
+    std::fs::write(&out, serde_json::to_string_pretty(&s).unwrap()).expect("write");
+    if r.nviol > 0 { 1 } else { 0 }
+}
+
 fn main() {
     let args: Vec<String> = std::env::args().collect();
     let code = match args.get(1).map(|s| s.as_str()) {
@@ -530,6 +557,7 @@ fn main() {
         Some("run-builder") => run_builder_cmd(&args),
         Some("run-parser") => run_parser_cmd(&args),
         Some("replay-shapes") => replay_shapes_cmd(&args),
+        Some("eval-terms") => eval_terms_cmd(&args),
         _ => {
             eprintln!("usage: pv <smoke|replay-core> ...");
             2
